@@ -19,7 +19,8 @@ struct KllFam {
     if (mode == 0) { const int k = static_cast<int>(r.pick({9, 10, 12})); cfg.assign(static_cast<size_t>(nsk), k); }
     else if (mode == 1) { for (auto& c : cfg) c = static_cast<int>(r.pick({8, 8, 9, 10, 12, 16})); }   // mixed k (min_k path)
   }
-  static int mixed_cfg(int cfg, int i) { static const int mul2[4] = {2, 4, 3, 6}; return cfg * mul2[i] / 2; }
+  // mixed-k merge: the root has the LARGEST k (3k, k, 2k, 1.5k); the published error must be the one of the smallest k (min_k)
+  static int mixed_cfg(int cfg, int i) { static const int mul2[4] = {6, 2, 4, 3}; return cfg * mul2[i] / 2; }
 };
 
 const char* property_id() { return "C08"; }
